@@ -21,6 +21,7 @@ type Engine struct {
 	DB       *ContractDB
 	Funcs    map[string]*ssa.Function // full name -> function (pkgpath.RelString)
 	AllFuncs []*ssa.Function
+	eventSigs map[string]*eventSig
 	RepoDir  string
 
 	mutableGlobals map[*ssa.Global]bool
